@@ -26,6 +26,9 @@ def ops_for(rng, p, st, tier):
     quick = tier == "quick"
     ops = [dict(op="snap")]
     nodes = p.nodes
+    if len(nodes) > 150:
+        # very large type: the per-node sweeps use the first (deepest-first) nodes, the last ones and a sample in between
+        nodes = nodes[:30] + rng.sample(nodes[30:-12], 14) + nodes[-12:]
     type_level = st == 0
     if type_level:
         ops.append(dict(op="meta"))
@@ -40,7 +43,7 @@ def ops_for(rng, p, st, tier):
             if steps and rng.random() < 0.3:
                 ops.append(dict(op="rawtrav", keys=P.key_repr(rng, steps), fail_at=rng.randrange(len(steps)), _steps=steps, _leaf=leaf))
             for j in range(len(steps) + 1):
-                if quick and rng.random() < 0.5:
+                if (quick and rng.random() < 0.5) or (len(steps) > 12 and rng.random() < 0.9):
                     continue
                 ops.append(dict(op="transcode", keys=P.key_chain(rng, steps, j), tg=targets_for(rng, steps, [rng.choice(["idx", "path", "unit"])])[0], _steps=steps, _leaf=leaf))
         # reads through a random representation, with scripted callbacks
@@ -109,7 +112,7 @@ def ops_for(rng, p, st, tier):
     # ---- iteration (type level)
     if type_level:
         maxd = p.maxd
-        for d in range(0, maxd + 2):
+        for d in [d for d in p.depths if d <= maxd + 1]:
             for tg in [dict(t="idxd"), dict(t="path", sep=47), dict(t="packed"), dict(t="unit"), dict(t="json"), dict(t="path", sep=233)]:
                 if quick and d < maxd and rng.random() < 0.6:
                     continue
@@ -123,7 +126,7 @@ def ops_for(rng, p, st, tier):
         # rooted iteration, any representation of the root
         internal = [n for n in nodes if not n[1]]
         for steps, leaf in rng.sample(nodes, min(len(nodes), 6 if quick else 20)):
-            d = rng.randint(len(steps), maxd + 1)
+            d = rng.choice([x for x in p.depths if len(steps) <= x <= maxd + 1] or [maxd])
             ops.append(dict(op="iter", d=d, tg=rng.choice([dict(t="path", sep=47), dict(t="idxd"), dict(t="packed")]),
                             root=P.key_repr(rng, steps), _root=steps, max=600))
         # re-rooting a used iterator
